@@ -140,6 +140,9 @@ CONTRACTS.append(Contract(
         Clause("C18.rm_view_exact", lambda o, n, r: z3.Implies(_rm_guard(o), z3.ForAll([X], view(D(n), X) == z3.And(
             view(D(o), X), z3.Not(z3.And(o.segment_to_remove[0] <= X, X < o.segment_to_remove[1]))))), PROPS),
         Clause("C18.rm_wf", lambda o, n, r: z3.Implies(_rm_guard(o), tr_wf(D(n))), PROPS),
+        # beyond the property's precondition (arbitrary ranges): the representation stays well-formed and nothing is added
+        Clause("C18.rm_wf_for_any_range", lambda o, n, r: tr_wf(D(n)), PROPS),
+        Clause("C18.rm_never_adds", lambda o, n, r: z3.ForAll([X], z3.Implies(view(D(n), X), view(D(o), X))), PROPS),
         Clause("C18.rm_reports_change", lambda o, n, r: z3.Implies(_rm_guard(o), r == z3.Exists([X], z3.And(
             o.segment_to_remove[0] <= X, X < o.segment_to_remove[1], view(D(o), X)))), PROPS),
     ],
